@@ -56,17 +56,35 @@ def variant_of_pointee(eng, st, v):
     return a["variants"][vi]["name"] if vi is not None else None
 
 
-def is_window_queue(eng, v):
-    """reference to the `elements`-like VecDeque field of a Window object"""
+def window_prefix(eng, v):
+    """for a reference into a Window object: the path of the Window value itself (longest prefix whose static type is
+    Window), else None"""
     if v is None or v[0] != "r" or not v[2]:
-        return False
-    # the place is a field of something; we accept any VecDeque that lives inside a Window value:
-    # static type of the owner
-    owner_ti = eng.static_type(v[1], v[2][:-1])
-    if owner_ti is None:
-        return False
-    t = eng.prog.types[owner_ti]
-    return t["k"] == "adt" and t["path"] == WINDOW
+        return None
+    for n in range(len(v[2]) - 1, -1, -1):
+        owner_ti = eng.static_type(v[1], v[2][:n])
+        if owner_ti is not None:
+            t = eng.prog.types[owner_ti]
+            if t["k"] == "adt" and t["path"] == WINDOW:
+                return tuple(v[2][:n])
+    return None
+
+
+def ref_chain(eng, st, v, limit=5):
+    """v, what it points to if that is a reference again, and so on (for operands like `&&Path`)"""
+    out = []
+    while v is not None and isinstance(v, tuple) and v and v[0] == "r" and len(out) < limit:
+        out.append(v)
+        if "E" in v[2]:
+            break
+        nxt = st.store.get(v[1], {}).get(tuple(v[2]))
+        v = nxt
+    return out
+
+
+def is_window_queue(eng, v):
+    """reference to a VecDeque that lives inside a Window value (possibly inside a private helper struct of it)"""
+    return window_prefix(eng, v) is not None
 
 
 def install(eng, world=None):
@@ -79,7 +97,12 @@ def install(eng, world=None):
             layout[0] = world.server_layout() if world is not None else {}
         return layout[0].get(name)
 
-    fi_chunk = prog.field_index(WINDOW, "chunk_size")
+    wlayout = [None]
+
+    def window_path(name):
+        if wlayout[0] is None:
+            wlayout[0] = world.window_layout() if world is not None else {}
+        return wlayout[0].get(name)
 
     def in_send_side(fr):
         r = fr.region
@@ -110,7 +133,8 @@ def install(eng, world=None):
                            "" if ok else "a push_back is reachable after a chunk shorter than chunk_size was queued")
                 q = args[0][0].get(())
                 ln = args[1][0].get(("$len",))
-                cs = eng.read(st, q[1], q[2][:-1] + (fi_chunk,)) if fi_chunk is not None else None
+                wp_, ck_ = window_prefix(eng, q), window_path("chunk_size")
+                cs = eng.read(st, q[1], wp_ + tuple(ck_), eng.static_type(q[1], wp_ + tuple(ck_))) if (wp_ is not None and ck_ is not None) else None
                 if ln is not None and ln[0] == "i" and cs is not None and cs[0] == "i":
                     if st.ctx.entails(lin.lt(ln[1], cs[1])):
                         gwrite(eng, st, "eof", ICONST(1))
@@ -313,9 +337,23 @@ def install(eng, world=None):
             if isinstance(pat, tuple) and pat[0] == "r" and pat[1] == ("K", ("str", "..")):
                 root, path, ti = eng.resolve(st, fr, t["dest"])
                 gwrite(eng, st, "v_contains", eng.read(st, root, path, ti))
-        elif base == "std::iter::Iterator::any":
-            root, path, ti = eng.resolve(st, fr, t["dest"])
-            gwrite(eng, st, "v_any", eng.read(st, root, path, ti))
+        elif base.endswith("::eq") and "PartialEq" in base and len(args) >= 2:
+            # ---- v_any: `ancestor == X` where ancestor is handed out by path.ancestors(): the ancestor test of the validator,
+            # whether written with Iterator::any or as an explicit loop. The compared operands are logged for the rules.
+            chains = [ref_chain(eng, st, a[0].get(())) for a in args[:2]]
+            for i in (0, 1):
+                el = [r for r in chains[i] if r[1][0] == "P" and isinstance(r[1][1], tuple) and r[1][1] and r[1][1][0] == "elem"
+                      and len(r[1][1]) >= 5 and r[1][1][4] == "ancestors"]
+                if el:
+                    root, path, ti = eng.resolve(st, fr, t["dest"])
+                    res = eng.read(st, root, path, ti)
+                    gwrite(eng, st, "v_any", res)
+                    if eng.record:
+                        ovr = el[0][1][1][3]
+                        eng.anc_eq_log.append({"node": (fr.id, bb), "ctx": fr.id, "loc": fr.body.loc(bb), "elem": el[0][1][1],
+                                               "path_value": eng.read(st, ovr[0], ovr[1]) if ovr is not None else None, "path_place": ovr,
+                                               "other": chains[1 - i], "result": res})
+                    break
         elif base == "std::sync::mpsc::Sender::send" and fr.region == "listener":
             root, path, ti = eng.resolve(st, fr, t["dest"])
             gwrite(eng, st, "routed", I(lin.add(eng.read(st, root, path + ("$discr",))[1], lin.const(1))))
@@ -329,6 +367,16 @@ def install(eng, world=None):
             return d[(name,)]
         return None
 
+    def listener_return(eng, st, fr, bb, callee, sub):
+        # ---- herr: a crate function called (at any depth) from the listen loop returned Err in this iteration
+        if fr.region != "listener":
+            return
+        d = sub.get(("$discr",))
+        ts = prog.types[callee.local_ty(0)]["s"]
+        if d is not None and "result::Result<" in ts and const_of(d) == 1:
+            gwrite(eng, st, "herr", ICONST(1))
+
+    eng.return_hooks.append(listener_return)
     eng.call_hooks.append(call_hook)
     eng.call_hooks.append(listener_hook)
     eng.post_call_hooks.append(listener_post)
